@@ -46,15 +46,17 @@ func (x *Exec) instr(fr *frame, ins ssa.Instruction, st *State, r string) (strin
 			_ = id
 		}
 		if obj := i.Object(); obj != nil {
-			fr.dbg[obj.Name()] = append(fr.dbg[obj.Name()], dbgRef{blk: i.Block(), val: i.X, isAddr: i.IsAddr})
+			fr.dbg[obj.Name()] = append(fr.dbg[obj.Name()], dbgRef{blk: i.Block(), idx: instrIndex(i), val: i.X, isAddr: i.IsAddr})
 		}
 	case *ssa.Alloc:
 		ref := vc.alloc(st, i.Name())
+		vc.noteAlloc(ref, deref(i.Type()))
 		x.setVal(fr, i, Val{ic(ref), ic("0")})
 	case *ssa.MakeSlice:
 		ln, cp := x.val(fr, i.Len)[0].T, x.val(fr, i.Cap)[0].T
 		r = x.guard(fr, ins, r, and(sx("<=", "0", ln), sx("<=", ln, cp)), "makeslice")
 		ref := vc.alloc(st, i.Name())
+		vc.noteAlloc(ref, i.Type().Underlying().(*types.Slice).Elem())
 		x.setVal(fr, i, Val{ic(ref), ic("0"), ic(ln), ic(cp)})
 	case *ssa.MakeMap:
 		ref := vc.alloc(st, i.Name())
@@ -79,11 +81,13 @@ func (x *Exec) instr(fr *frame, ins ssa.Instruction, st *State, r string) (strin
 		off := 0
 		for _, b := range i.Bindings {
 			bv := x.val(fr, b)
+			vc.escape(bv)
 			vc.store(st, ref, itoa(int64(off)), bv)
 			off += len(bv)
 		}
 		x.setVal(fr, i, Val{ic(ref)})
 	case *ssa.MakeInterface:
+		vc.escape(x.val(fr, i.X))
 		x.setVal(fr, i, x.makeIface(st, i.X.Type(), x.val(fr, i.X)))
 	case *ssa.FieldAddr:
 		p := x.val(fr, i.X)
@@ -134,9 +138,13 @@ func (x *Exec) instr(fr *frame, ins ssa.Instruction, st *State, r string) (strin
 		r = x.guard(fr, ins, r, sx(">=", s[2].T, itoa(n)), "slice-to-array")
 		x.setVal(fr, i, Val{s[0], s[1]})
 	case *ssa.Store:
+		if _, isFA := i.Addr.(*ssa.FieldAddr); isFA {
+			x.guardedAccess(fr, i, i.Addr, st, r)
+		}
 		p := x.val(fr, i.Addr)
 		r = x.guard(fr, ins, r, not(eq(p[0].T, "0")), "nil-deref")
 		memBefore := st.Mem
+		vc.escape(x.val(fr, i.Val))
 		vc.store(st, p[0].T, p[1].T, x.val(fr, i.Val))
 		if x.trace != nil {
 			x.trace.stores = append(x.trace.stores, &StoreSite{Instr: i, Reach: r, Fn: fr.fn, Ref: p[0].T, Off: p[1].T, MemBefore: memBefore})
@@ -183,6 +191,8 @@ func (x *Exec) instr(fr *frame, ins ssa.Instruction, st *State, r string) (strin
 		m := x.val(fr, i.Map)[0].T
 		r = x.guard(fr, ins, r, not(eq(m, "0")), "nil-map")
 		fam := vc.mapFamily(i.Map.Type().Underlying().(*types.Map))
+		vc.escape(x.val(fr, i.Value))
+		vc.escape(x.val(fr, i.Key))
 		fam.update(vc, st, m, x.val(fr, i.Key), x.val(fr, i.Value), true)
 		if x.trace != nil {
 			x.trace.mapUpdates = append(x.trace.mapUpdates, &MapUpdateSite{Instr: i, Reach: r, Fn: fr.fn})
@@ -196,6 +206,7 @@ func (x *Exec) instr(fr *frame, ins ssa.Instruction, st *State, r string) (strin
 		}
 		x.next(fr, i, st, r)
 	case *ssa.Send:
+		vc.escape(x.val(fr, i.X))
 		if x.trace != nil {
 			x.trace.sends = append(x.trace.sends, &SendSite{Instr: i, Reach: r, Fn: fr.fn, Val: x.val(fr, i.X), Chan: x.val(fr, i.Chan)})
 		}
@@ -209,6 +220,7 @@ func (x *Exec) instr(fr *frame, ins ssa.Instruction, st *State, r string) (strin
 		var vs []Val
 		for _, rv := range i.Results {
 			vs = append(vs, x.val(fr, rv))
+			vc.escape(x.val(fr, rv))
 		}
 		fr.rets = append(fr.rets, retSite{reach: r, vals: vs, st: st.clone(), pos: i.Pos(), mark: vc.S.mark()})
 		return r, false
@@ -352,6 +364,9 @@ func (x *Exec) unop(fr *frame, i *ssa.UnOp, st *State, r string) string {
 	v := x.val(fr, i.X)
 	switch i.Op {
 	case token.MUL: // load
+		if _, isFA := i.X.(*ssa.FieldAddr); isFA {
+			x.guardedAccess(fr, i, i.X, st, r)
+		}
 		r = x.guard(fr, i, r, not(eq(v[0].T, "0")), "nil-deref")
 		l := x.vc.ls.of(i.Type())
 		var res Val
@@ -543,4 +558,13 @@ func fieldOrigin(v ssa.Value) (ssa.Value, string) {
 		return nil, ""
 	}
 	return fa.X, st.Field(fa.Field).Name()
+}
+
+func instrIndex(ins ssa.Instruction) int {
+	for k, x := range ins.Block().Instrs {
+		if x == ins {
+			return k
+		}
+	}
+	return 0
 }
